@@ -151,6 +151,20 @@ CLAIMED["C16"] = dict(
          "(both only checked numerically by the replay harness).",
 )
 
+CLAIMED["C07"] = dict(
+    text="Proof in three layers: (1) token level -- the real writers (Molecule/Structure/ConformerEnsemble dump_mol2) are executed on "
+         "structures with symbolic name, labels, coordinates and charges, their output (a structured string of literals and formatted "
+         "tokens) is fed to the real reader (read_mol2, LineReader, yield_from_mol2, loads_mol2/load_all_mol2): name, atom order, "
+         "elements, labels, types, coordinates (1e-6) and charges (1e-3), bond list with endpoints and types, conformer count and order "
+         "agree, and a second write gives the same text; (2) numeric text codecs are stated assumptions; (3) the atom-type vocabulary is "
+         "covered completely: all 119 elements enumerated x symbolic type x geometry (path-complete over the finite enums), all bond types.",
+    ref="DESIGN.md section 3 C07",
+    note="Known finding (not repaired, printed as KNOWN-FINDING): geometry-only type tokens (X.pl3/X.th/X.oh) are not fixed points. "
+         "Structured-string model: tokens are non-empty and whitespace-free (labels/name precondition of the property), padding is not "
+         "tracked, float/int text codecs assumed with their error bounds, the sign of a printed zero is not modelled; sizes fixed "
+         "(3 atoms / 2 bonds; 2 conformers x 2 atoms).",
+)
+
 NOT_APPLICABLE = {
 }
 
